@@ -117,8 +117,10 @@ HostPatterns ==
       \* rule around them, restricted to a type
       \cup {PatX("domain", <<"b","a","com">>), PatX("domain", <<"a","org">>),
             PatXT("domain", ACom, "AAAA")}
+      \* entries written with the final dot
+      \cup {PatF("exact", ACom), PatF("wild", ACom)}
 
-McPatterns == {Pat("exact", ACom), Pat("wild", ACom), PatT("domain", ACom, "AAAA"),
+McPatterns == {PatF("exact", ACom), Pat("wild", ACom), PatT("domain", ACom, "AAAA"),
                PatX("domain", <<"b","a","com">>)}
 
 \* Small subsets by comprehension (never SUBSET S filtered by cardinality).
@@ -298,6 +300,11 @@ OthersServed ==
     HasLast /\ last.req.id # BadId /\ Admitted(cfg, last.req.addr, last.req.id)
             /\ HostBlocked(cfg.hosts, last.req.name, last.req.qtype) = {FALSE}
         => last.out = "served"
+
+\* Whether an entry is written with the final dot is irrelevant.
+HostSpellingIrrelevant ==
+    HasLast => HostBlocked(cfg.hosts, last.req.name, last.req.qtype) =
+               HostBlocked({[p EXCEPT !.fq = FALSE] : p \in cfg.hosts}, last.req.name, last.req.qtype)
 
 \* A name that the list excepts is served to an admitted client, whatever
 \* blocking rule stands around the exception.
